@@ -869,7 +869,6 @@ func (w *World) loaderRoots() []*ssa.Function {
 	return roots
 }
 
-
 // underKeyEquality: statement n sits, inside the loop, in the then-branch of an `if` (or the
 // clause of a switch) one of whose conjuncts compares the loop's KEY ITSELF for equality with
 // something that does not vary with the iteration.  Map keys are distinct, so at most one entry
